@@ -69,7 +69,7 @@ theorem spec_age_step_eq (p : Str → Option Int) (s : Spec.Stored) (t0 t1 : Int
   simp only []
   generalize hI : (max (match Spec.httpTime p s.header sDate with
       | some d => max 0 (sat (s.responseTime - d))
-      | none => maxI64) (sat ((Spec.deltaSeconds (Header.get s.header sAge)).getD 0 + max 0 (sat (s.responseTime - s.requestTime))))) = I
+      | none => maxI64) (sat ((Spec.deltaSeconds (firstListMember (Header.values s.header sAge))).getD 0 + max 0 (sat (s.responseTime - s.requestTime))))) = I
   have hI0 : 0 ≤ I := by
     rw [← hI]
     have h2 : 0 ≤ (match Spec.httpTime p s.header sDate with
